@@ -495,6 +495,95 @@ def run_spawn(shape_i: int, where_i: int, vb: bool) -> Tuple[bool, bool]:
     return ok, not vb
 
 
+def _abandoned_child_scenario(kind: int, how: int) -> Tuple[Any, Any]:
+    """Task V starts - from inside a marked region (kind 0: the body of a public method of an object with an invariant; kind
+    1: an awaiting precondition of a function f) - a child task C that suspends for good inside another checked call.  Later,
+    when V's own call has long returned, C's coroutine is finalised from V (how 0: ``coro.close()``, what the garbage
+    collector does to an abandoned task; how 1: ``task.cancel()``).  V's calls must still be checked afterwards.
+    Returns (verdict of a violating call by V before the finalisation, the same after it)."""
+    out = {}  # type: Dict[str, Any]
+
+    async def main() -> None:
+        loop = asyncio.get_running_loop()
+        never = loop.create_future()
+        box = {}  # type: Dict[str, Any]
+
+        async def judge(fn: Any) -> Any:
+            try:
+                return ("ret", await fn())
+            except Tag as err:
+                return ("violation", err.label)
+        if kind == 0:
+            class Account:
+                def __init__(self) -> None:
+                    self.balance = 10
+
+                async def transfer(self) -> None:
+                    box["task"] = asyncio.ensure_future(self.audit())
+                    await asyncio.sleep(0)
+
+                async def audit(self) -> None:
+                    await never
+
+                async def withdraw(self, amount: int) -> None:
+                    self.balance -= amount
+            cls = icontract.invariant(lambda self: self.balance >= 0, error=lambda: Tag("inv"))(Account)
+            account = cls()
+
+            async def violating() -> Any:
+                try:
+                    return await account.withdraw(1000)
+                finally:
+                    account.__dict__["balance"] = 10
+            await account.transfer()
+        else:
+            async def g_pre(x: Any) -> Any:
+                await never
+                return True
+
+            @icontract.require(g_pre, error=lambda: Tag("g.pre"))
+            async def g(x: Any) -> Any:
+                return x
+
+            async def f_pre(x: Any) -> Any:
+                if "task" not in box:
+                    box["task"] = asyncio.ensure_future(g(1))
+                    await asyncio.sleep(0)
+                return x > 0
+
+            @icontract.require(f_pre, error=lambda: Tag("f.pre"))
+            async def f(x: Any) -> Any:
+                return x
+
+            async def violating() -> Any:
+                return await f(-1)
+            await f(1)
+        out["before"] = await judge(violating)
+        task = box["task"]
+        if how == 0:
+            task.get_coro().close()
+        task.cancel()
+        try:
+            await task
+        except BaseException:  # noqa: B902  (CancelledError / RuntimeError of the closed coroutine)
+            pass
+        out["after"] = await judge(violating)
+    import warnings
+    with warnings.catch_warnings():
+        warnings.simplefilter("ignore")
+        asyncio.run(main())
+    return out.get("before"), out.get("after")
+
+
+def run_abandoned_child(kind: int, how: int) -> Tuple[bool, bool]:
+    kind, how = conc(kind, 0, 1), conc(how, 0, 1)
+    with untraced():
+        before, after = _abandoned_child_scenario(kind, how)
+    want = ("violation", "inv") if kind == 0 else ("violation", "f.pre")
+    note(("abandoned_child", kind, how, before, after), True)
+    return before == want and after == want, True
+
+
 ALL = ["mode", "s0", "s1", "s2", "s3", "s4", "s5", "s6", "s7", "s8", "v0", "v1", "v2"]
 
 
@@ -536,4 +625,10 @@ def harnesses(tier: str) -> List[H]:
                         "same function (a public method of the same object) at once and again after the parent has returned; "
                         "run natively - the solver only exhausts the selector product".format(SPAWN_SHAPES, SPAWN_WHERE),
                  family_size=len(SPAWN_SHAPES) * 3 * 2))
+    out.append(H("abandoned_child", bind(run_abandoned_child, (), ["kind", "how"], {}, ["kind", "how"]),
+                 [I("kind", 0, 1), I("how", 0, 1)], tiers=(tier,), timeout=300,
+                 family="real asyncio tasks: a child task created inside a marked region (method body of an object with an "
+                        "invariant / awaiting precondition) suspends for good inside another checked call and is later finalised "
+                        "from its creator (coroutine closed as the garbage collector does / task cancelled); the creator's "
+                        "violating call is judged before and after (run natively)", family_size=4))
     return out
